@@ -64,13 +64,7 @@ func stickyRun() {
 		vh.Emit(map[string]interface{}{"ev": "cfg", "cid": c.ID, "kind": c.Kind, "w": padI(c.W), "av": padB(c.Av)})
 		switch c.Kind {
 		case "slb":
-			for pi, perm := range c.Perms {
-				obj := newSlbObj(perm, c.W, "10.0.0.")
-				for i, a := range c.Av {
-					if !a {
-						obj.backs[i+1].SetAvail(false)
-					}
-				}
+			record := func(pi int, obj *slbObj) {
 				total := 0
 				for _, s := range obj.brr.VerifSnapshot() {
 					if s.Avail && s.Weight > 0 {
@@ -80,7 +74,7 @@ func stickyRun() {
 				if total == 0 {
 					id, _ := obj.pick("sticky", []byte("k"))
 					vh.Emit(map[string]interface{}{"ev": "tab", "cid": c.ID, "perm": pi, "T": 0, "tab": []int{id}, "tab2": []int{id}})
-					continue
+					return
 				}
 				keys := keysFor(total, 2, func(i int) []byte { return []byte(fmt.Sprintf("sess-%d-%d", pi, i)) })
 				tab, tab2 := make([]int, total), make([]int, total)
@@ -94,6 +88,43 @@ func stickyRun() {
 					}
 				}
 				vh.Emit(map[string]interface{}{"ev": "tab", "cid": c.ID, "perm": pi, "T": total, "tab": tab, "tab2": tab2})
+			}
+			setAvail := func(obj *slbObj) {
+				for i, a := range c.Av {
+					if b, ok := obj.backs[i+1]; ok {
+						b.SetAvail(a)
+					}
+				}
+			}
+			for pi, perm := range c.Perms {
+				obj := newSlbObj(perm, c.W, "10.0.0.")
+				setAvail(obj)
+				record(pi, obj)
+			}
+			// the same eligible set reached through a reload history: the object starts with one backend
+			// replaced by another one (id 9), serves sticky picks, and is then reloaded to the configuration
+			for hi, gone := range []int{1, c.N} {
+				if len(c.Perms) == 0 || c.N < 2 {
+					break
+				}
+				perm := c.Perms[len(c.Perms)-1]
+				start := make([]int, len(perm))
+				for i, id := range perm {
+					start[i] = id
+					if id == gone {
+						start[i] = 9
+					}
+				}
+				w9 := append(append([]int{}, c.W...), make([]int, 9-len(c.W))...)
+				w9[8] = 1
+				obj := newSlbObj(start, w9, "10.0.0.")
+				setAvail(obj)
+				obj.pick("sticky", []byte("warm-up"))
+				obj.pick("sticky", []byte("warm-up-2"))
+				obj.brr.Update(mkConf(perm, c.W, obj.base))
+				obj.refresh()
+				setAvail(obj)
+				record(100+hi, obj)
 			}
 		case "gslb":
 			// sub-clusters 1..n are "a","b","c" (+ index 0 blackhole unused here); all have two eligible backends
